@@ -1,7 +1,546 @@
-//! Compound operations (round trips, readers, statistics, FIBEX).
-use crate::ops::Outcome;
+//! Compound operations (round trips, prefixes, junk, filters, stability).
+use crate::ops::*;
+use crate::oracles::*;
 use crate::wire::*;
+use dlt_core::dlt::*;
+use dlt_core::filtering::{DltFilterConfig, ProcessedDltFilterConfig};
+use dlt_core::parse::*;
+use std::panic::{catch_unwind, AssertUnwindSafe};
 
-pub fn run_case2(_prop: &str, op: u32, _toks: &[Tok]) -> Outcome {
-    panic!("unknown op {}", op)
+fn guarded<T>(f: impl FnOnce() -> T) -> Option<T> {
+    catch_unwind(AssertUnwindSafe(f)).ok()
 }
+
+pub fn msg_toks(m: &Message) -> Vec<Tok> {
+    let mut w = W::new();
+    w.msg(m);
+    w.0
+}
+
+type PResult = Option<Result<(usize, ParsedMessage), DltParseError>>;
+
+pub fn parse_owned(bs: &[u8], f: Option<&ProcessedDltFilterConfig>, sh: bool) -> PResult {
+    guarded(|| dlt_message(bs, f, sh).map(|(rest, pm)| (rest.len(), pm)))
+}
+
+pub fn w_presult(w: &mut W, r: &PResult) {
+    match r {
+        None => w.n(4),
+        Some(Ok((rest_len, pm))) => {
+            w.n(0);
+            w_parsed(w, pm);
+            w.n(*rest_len as u128);
+        }
+        Some(Err(e)) => w_parse_err(w, e),
+    }
+}
+
+fn op_rt(toks: &[Tok], prop: &str) -> Outcome {
+    let mut r = R::new(toks);
+    let m = r.msg();
+    let suffix = r.b();
+    let mut w = W::new();
+    let mut oracle = vec![];
+    let wf = crate::genmsg::wf_message(&m);
+    w.bool(wf);
+    let prop = if wf { prop } else { "" };
+    match guarded(|| m.as_bytes()) {
+        None => {
+            w.n(1);
+            if prop == "C01" {
+                oracle.push(("no_panic".into(), "as_bytes panicked on a well-formed message".into()));
+            }
+        }
+        Some(bytes) => {
+            w.n(0);
+            w.b(&bytes);
+            let mut buf = bytes.clone();
+            buf.extend_from_slice(&suffix);
+            let res = parse_owned(&buf, None, m.storage_header.is_some());
+            w_presult(&mut w, &res);
+            if prop == "C01" {
+                match &res {
+                    Some(Ok((rest_len, ParsedMessage::Item(m2)))) => {
+                        if msg_toks(m2) != msg_toks(&m) {
+                            oracle.push(("roundtrip_equal".into(), format!("parsed message differs: {}", diff_msgs(&m, m2))));
+                        }
+                        if *rest_len != suffix.len() {
+                            oracle.push(("remainder_exact".into(), format!("rest has {} bytes, {} followed the message", rest_len, suffix.len())));
+                        }
+                    }
+                    other => oracle.push(("roundtrip_equal".into(), format!("no message: {}", short_res(other)))),
+                }
+            }
+        }
+    }
+    Outcome { result: w.0, oracle }
+}
+
+pub fn short_res(r: &PResult) -> String {
+    match r {
+        None => "panic".into(),
+        Some(Ok((rl, ParsedMessage::Item(_)))) => format!("Item, rest {}", rl),
+        Some(Ok((rl, ParsedMessage::FilteredOut(n)))) => format!("FilteredOut({}), rest {}", n, rl),
+        Some(Ok((rl, ParsedMessage::Invalid))) => format!("Invalid, rest {}", rl),
+        Some(Err(e)) => format!("{:?}", e),
+    }
+}
+
+pub fn diff_msgs(a: &Message, b: &Message) -> String {
+    if msg_toks(&Message { payload: PayloadContent::Verbose(vec![]), ..a.clone() })
+        != msg_toks(&Message { payload: PayloadContent::Verbose(vec![]), ..b.clone() })
+    {
+        return format!("headers {:?}/{:?}/{:?} vs {:?}/{:?}/{:?}", a.storage_header, a.header, a.extended_header, b.storage_header, b.header, b.extended_header);
+    }
+    let s = format!("payload {:?} vs {:?}", a.payload, b.payload);
+    s.chars().take(400).collect()
+}
+
+fn op_parse_use(toks: &[Tok], prop: &str) -> Outcome {
+    let mut r = R::new(toks);
+    let sh = r.bool();
+    let f = r.opt_filter();
+    let bs = r.b();
+    let pf: Option<ProcessedDltFilterConfig> = f.as_ref().map(|c| c.into());
+    let mut w = W::new();
+    let mut oracle = vec![];
+    let res = parse_owned(&bs, pf.as_ref(), sh);
+    match &res {
+        None => {
+            w.n(9);
+            oracle.push(("no_panic".into(), "dlt_message panicked".into()));
+        }
+        Some(Ok((_, ParsedMessage::Item(m)))) => {
+            w.n(0);
+            let ser = guarded(|| (m.as_bytes().len(), m.byte_len())).is_some();
+            let mut args_ok = true;
+            let mut all_valid = true;
+            if let PayloadContent::Verbose(args) = &m.payload {
+                for a in args {
+                    let l = guarded(|| a.len());
+                    let b1 = guarded(|| arg_as_bytes(Endianness::Big, a).len());
+                    let b2 = guarded(|| arg_as_bytes(Endianness::Little, a).len());
+                    let v = guarded(|| a.valid());
+                    if l.is_none() || b1.is_none() || b2.is_none() || v.is_none() {
+                        args_ok = false;
+                    }
+                    if v != Some(true) {
+                        all_valid = false;
+                    }
+                }
+            }
+            w.n(!(ser && args_ok) as u128);
+            w.n(all_valid as u128);
+            if !ser {
+                oracle.push(("result_serialisable".into(), "Message::as_bytes/byte_len panicked on a parser result".into()));
+            }
+            if !args_ok {
+                oracle.push(("result_serialisable".into(), "Argument::len/as_bytes/valid panicked on a parser result".into()));
+            }
+            if !all_valid {
+                oracle.push(("result_args_valid".into(), "an argument of a parser result fails Argument::valid".into()));
+            }
+        }
+        Some(Ok((_, ParsedMessage::FilteredOut(_)))) => w.n(1),
+        Some(Ok((_, ParsedMessage::Invalid))) => w.n(2),
+        Some(Err(DltParseError::IncompleteParse { .. })) => w.n(3),
+        Some(Err(DltParseError::ParsingHickup(_))) => w.n(4),
+        Some(Err(DltParseError::Unrecoverable(_))) => w.n(5),
+    }
+    if prop != "C03" {
+        oracle.clear();
+    }
+    Outcome { result: w.0, oracle }
+}
+
+fn prefix_code(r: &PResult) -> u128 {
+    match r {
+        None => 16777219,
+        Some(Ok(_)) => 16777216,
+        Some(Err(DltParseError::IncompleteParse { needed: None })) => 0,
+        Some(Err(DltParseError::IncompleteParse { needed: Some(n) })) => n.get() as u128,
+        Some(Err(DltParseError::ParsingHickup(_))) => 16777217,
+        Some(Err(DltParseError::Unrecoverable(_))) => 16777218,
+    }
+}
+
+fn op_prefix(toks: &[Tok], prop: &str) -> Outcome {
+    let mut r = R::new(toks);
+    let m = r.msg();
+    let f = r.opt_filter();
+    let pf: Option<ProcessedDltFilterConfig> = f.as_ref().map(|c| c.into());
+    let mut w = W::new();
+    let wf = crate::genmsg::wf_message(&m);
+    let prop = if wf { prop } else { "" };
+    let mut oracle = vec![];
+    w.bool(wf);
+    match guarded(|| m.as_bytes()) {
+        None => w.n(1),
+        Some(bytes) => {
+            w.n(0);
+            w.n(bytes.len() as u128);
+            let sh = m.storage_header.is_some();
+            for k in 0..bytes.len() {
+                let res = parse_owned(&bytes[..k], pf.as_ref(), sh);
+                let code = prefix_code(&res);
+                w.n(code);
+                if prop == "C05" {
+                    let missing = (bytes.len() - k) as u128;
+                    if code >= 16777216 {
+                        oracle.push(("prefix_incomplete".into(), format!("cut at {} of {}: {}", k, bytes.len(), short_res(&res))));
+                    } else if code != 0 && code > missing {
+                        oracle.push(("hint_le_missing".into(), format!("cut at {} of {}: needed {} > missing {}", k, bytes.len(), code, missing)));
+                    }
+                }
+            }
+            if sh {
+                for k in 0..bytes.len() {
+                    let res = guarded(|| dlt_consume_msg(&bytes[..k]).map(|(rest, c)| (rest.len(), c)));
+                    let code = match &res {
+                        None => 16777219,
+                        Some(Ok((_, None))) => 16777220,
+                        Some(Ok((_, Some(_)))) => 16777216,
+                        Some(Err(DltParseError::IncompleteParse { needed: None })) => 0,
+                        Some(Err(DltParseError::IncompleteParse { needed: Some(n) })) => n.get() as u128,
+                        Some(Err(DltParseError::ParsingHickup(_))) => 16777217,
+                        Some(Err(DltParseError::Unrecoverable(_))) => 16777218,
+                    };
+                    w.n(code);
+                    if prop == "C05" {
+                        let missing = (bytes.len() - k) as u128;
+                        if k == 0 {
+                            if code != 16777220 {
+                                oracle.push(("skipper_empty_is_none".into(), format!("empty input: code {}", code)));
+                            }
+                        } else if code >= 16777216 {
+                            oracle.push(("skipper_prefix_incomplete".into(), format!("cut at {} of {}: {:?}", k, bytes.len(), res)));
+                        } else if code != 0 && code > missing {
+                            oracle.push(("skipper_hint_le_missing".into(), format!("cut at {} of {}: needed {} > missing {}", k, bytes.len(), code, missing)));
+                        }
+                    }
+                }
+            }
+        }
+    }
+    oracle.truncate(3);
+    Outcome { result: w.0, oracle }
+}
+
+fn op_junk(toks: &[Tok], prop: &str) -> Outcome {
+    let mut r = R::new(toks);
+    let junk = r.b();
+    let m = r.msg();
+    let rest = r.b();
+    let f = r.opt_filter();
+    let pf: Option<ProcessedDltFilterConfig> = f.as_ref().map(|c| c.into());
+    let mut w = W::new();
+    let wf = crate::genmsg::wf_message(&m);
+    let prop = if wf { prop } else { "" };
+    let mut oracle = vec![];
+    w.bool(wf);
+    match guarded(|| m.as_bytes()) {
+        None => w.n(1),
+        Some(bytes) => {
+            w.n(0);
+            let mut with_junk = junk.clone();
+            with_junk.extend_from_slice(&bytes);
+            with_junk.extend_from_slice(&rest);
+            let mut plain = bytes.clone();
+            plain.extend_from_slice(&rest);
+            let a = parse_owned(&with_junk, pf.as_ref(), true);
+            let b = parse_owned(&plain, pf.as_ref(), true);
+            w_presult(&mut w, &a);
+            w_presult(&mut w, &b);
+            if prop == "C06" {
+                let mut wa = W::new();
+                w_presult(&mut wa, &a);
+                let mut wb = W::new();
+                w_presult(&mut wb, &b);
+                if wa.0 != wb.0 {
+                    oracle.push(("junk_skipped".into(), format!("with junk: {}; without: {}", short_res(&a), short_res(&b))));
+                }
+                if f.is_none() {
+                    match &b {
+                        Some(Ok((rl, ParsedMessage::Item(m2)))) if msg_toks(m2) == msg_toks(&m) && *rl == rest.len() => {}
+                        other => oracle.push(("message_recovered".into(), format!("plain parse: {}", short_res(other)))),
+                    }
+                }
+            }
+        }
+    }
+    Outcome { result: w.0, oracle }
+}
+
+fn op_parse_all(toks: &[Tok], prop: &str) -> Outcome {
+    let mut r = R::new(toks);
+    let sh = r.bool();
+    let f = r.opt_filter();
+    let bs = r.b();
+    let pf: Option<ProcessedDltFilterConfig> = f.as_ref().map(|c| c.into());
+    let mut w = W::new();
+    let mut oracle = vec![];
+    let res = guarded(|| {
+        let mut out = vec![];
+        let mut input: &[u8] = &bs;
+        let mut stuck = false;
+        loop {
+            match dlt_message(input, pf.as_ref(), sh) {
+                Ok((rest, pm)) => {
+                    if rest.len() >= input.len() {
+                        stuck = true;
+                        out.push(pm);
+                        break;
+                    }
+                    out.push(pm);
+                    input = rest;
+                }
+                Err(_) => break,
+            }
+        }
+        (out, input.len(), stuck)
+    });
+    match &res {
+        None => w.n(4),
+        Some((l, rest_len, stuck)) => {
+            w.n(l.len() as u128);
+            for pm in l {
+                w_parsed(&mut w, pm);
+            }
+            w.n(*rest_len as u128);
+            if *stuck && (prop == "C04" || prop == "C06") {
+                oracle.push(("progress".into(), "a successful parse did not consume anything".into()));
+            }
+        }
+    }
+    // C06 stream oracle: the expected messages travel in the case as a comment-free second field? no —
+    // the generator for C06 uses op 29 below, which carries the expected messages.
+    Outcome { result: w.0, oracle }
+}
+
+/// 29 STREAMJ: junk0, (msg, junk)*, parse all with storage headers; expected = the messages
+fn op_streamj(toks: &[Tok], prop: &str) -> Outcome {
+    let mut r = R::new(toks);
+    let j0 = r.b();
+    let n = r.n();
+    let mut buf = j0.clone();
+    let mut msgs = vec![];
+    let mut w = W::new();
+    let mut oracle = vec![];
+    for _ in 0..n {
+        let m = r.msg();
+        let j = r.b();
+        match guarded(|| m.as_bytes()) {
+            Some(b) => buf.extend_from_slice(&b),
+            None => {
+                w.n(1);
+                return Outcome { result: w.0, oracle };
+            }
+        }
+        buf.extend_from_slice(&j);
+        msgs.push(m);
+    }
+    w.n(0);
+    let res = guarded(|| {
+        let mut out = vec![];
+        let mut input: &[u8] = &buf;
+        loop {
+            match dlt_message(input, None, true) {
+                Ok((rest, pm)) => {
+                    out.push(pm);
+                    if rest.len() >= input.len() {
+                        break;
+                    }
+                    input = rest;
+                }
+                Err(_) => break,
+            }
+        }
+        (out, input.len())
+    });
+    match &res {
+        None => w.n(4),
+        Some((l, rest_len)) => {
+            w.n(l.len() as u128);
+            for pm in l {
+                w_parsed(&mut w, pm);
+            }
+            w.n(*rest_len as u128);
+            if prop == "C06" {
+                let got: Vec<Vec<Tok>> = l
+                    .iter()
+                    .filter_map(|pm| match pm {
+                        ParsedMessage::Item(m) => Some(msg_toks(m)),
+                        _ => None,
+                    })
+                    .collect();
+                let want: Vec<Vec<Tok>> = msgs.iter().map(msg_toks).collect();
+                if got != want || got.len() != l.len() {
+                    oracle.push(("stream_recovered".into(), format!("recovered {} of {} messages in order", got.len(), want.len())));
+                }
+            }
+        }
+    }
+    Outcome { result: w.0, oracle }
+}
+
+fn op_filt(toks: &[Tok], prop: &str) -> Outcome {
+    let mut r = R::new(toks);
+    let m = r.msg();
+    let f = r.filter();
+    let suffix = r.b();
+    let mut w = W::new();
+    let wf = crate::genmsg::wf_message(&m);
+    let prop = if wf { prop } else { "" };
+    let mut oracle = vec![];
+    w.bool(wf);
+    match guarded(|| m.as_bytes()) {
+        None => w.n(1),
+        Some(bytes) => {
+            w.n(0);
+            let mut buf = bytes.clone();
+            buf.extend_from_slice(&suffix);
+            let pf: ProcessedDltFilterConfig = (&f).into();
+            let sh = m.storage_header.is_some();
+            let res = parse_owned(&buf, Some(&pf), sh);
+            w_presult(&mut w, &res);
+            if prop == "C09" {
+                filter_oracle(&m, &f, &buf, suffix.len(), sh, &res, &mut oracle);
+            }
+        }
+    }
+    Outcome { result: w.0, oracle }
+}
+
+fn op_filtercfg(toks: &[Tok], prop: &str) -> Outcome {
+    let mut r = R::new(toks);
+    let f = r.filter();
+    let mut w = W::new();
+    let mut oracle = vec![];
+    let a: ProcessedDltFilterConfig = (&f).into();
+    let b: ProcessedDltFilterConfig = f.clone().into();
+    let canon = |p: &ProcessedDltFilterConfig, w: &mut W| {
+        match &p.min_log_level {
+            Some(l) => {
+                w.n(1);
+                w.log_level(l)
+            }
+            None => w.n(0),
+        }
+        for s in [&p.app_ids, &p.ecu_ids, &p.context_ids] {
+            match s {
+                Some(set) => {
+                    let mut v: Vec<&String> = set.iter().collect();
+                    v.sort();
+                    w.n(1);
+                    w.n(v.len() as u128);
+                    for x in v {
+                        w.b(x.as_bytes())
+                    }
+                }
+                None => w.n(0),
+            }
+        }
+        w.z(p.app_id_count as i128);
+        w.z(p.context_id_count as i128);
+    };
+    canon(&a, &mut w);
+    let mut wb = W::new();
+    canon(&b, &mut wb);
+    if prop == "C09" {
+        if w.0 != wb.0 {
+            oracle.push(("conversions_agree".into(), "From<&DltFilterConfig> and From<DltFilterConfig> differ".into()));
+        }
+        if let Some(l) = f.min_log_level {
+            if !(1..=6).contains(&l) && a.min_log_level.is_some() {
+                oracle.push(("level_outside_1_6_is_none".into(), format!("min_log_level {} became {:?}", l, a.min_log_level)));
+            }
+        }
+    }
+    Outcome { result: w.0, oracle }
+}
+
+fn op_stable(toks: &[Tok], prop: &str) -> Outcome {
+    let mut r = R::new(toks);
+    let sh = r.bool();
+    let bs = r.b();
+    let mut w = W::new();
+    let mut oracle = vec![];
+    let res = parse_owned(&bs, None, sh);
+    match &res {
+        Some(Ok((_, ParsedMessage::Item(m)))) => {
+            w.n(1);
+            match guarded(|| (m.as_bytes(), m.byte_len())) {
+                None => {
+                    w.n(1);
+                    if prop == "C16" {
+                        oracle.push(("reserialisable".into(), "as_bytes panicked on a parser result".into()));
+                    }
+                }
+                Some((bs2, bl)) => {
+                    w.n(0);
+                    w.msg(m);
+                    w.b(&bs2);
+                    let declared = if sh { 16 } else { 0 } + bl as usize;
+                    w.n(declared as u128);
+                    if bs2.len() == declared {
+                        let res2 = parse_owned(&bs2, None, sh);
+                        match &res2 {
+                            Some(Ok((rl2, ParsedMessage::Item(m2)))) => {
+                                w.n(0);
+                                w.msg(m2);
+                                w.n(*rl2 as u128);
+                                let bs3 = guarded(|| m2.as_bytes());
+                                match &bs3 {
+                                    Some(b3) => {
+                                        w.n(0);
+                                        w.b(b3)
+                                    }
+                                    None => w.n(1),
+                                }
+                                if prop == "C16" {
+                                    if msg_toks(m2) != msg_toks(m) {
+                                        oracle.push(("reparse_identical".into(), diff_msgs(m, m2)));
+                                    }
+                                    if *rl2 != 0 {
+                                        oracle.push(("nothing_left_over".into(), format!("{} bytes left", rl2)));
+                                    }
+                                    if bs3.as_ref() != Some(&bs2) {
+                                        oracle.push(("bytes_stable".into(), "third serialisation differs".into()));
+                                    }
+                                }
+                            }
+                            other => {
+                                w_presult(&mut w, other);
+                                if prop == "C16" {
+                                    oracle.push(("reparse_identical".into(), format!("re-serialisation does not parse to a message: {}", short_res(other))));
+                                }
+                            }
+                        }
+                    } else {
+                        w.n(7);
+                    }
+                }
+            }
+        }
+        _ => w.n(0),
+    }
+    Outcome { result: w.0, oracle }
+}
+
+pub fn run_case2(prop: &str, op: u32, toks: &[Tok]) -> Outcome {
+    match op {
+        20 => op_rt(toks, prop),
+        21 => op_parse_use(toks, prop),
+        23 => op_prefix(toks, prop),
+        24 => op_junk(toks, prop),
+        25 => op_parse_all(toks, prop),
+        26 => op_filt(toks, prop),
+        27 => op_filtercfg(toks, prop),
+        28 => op_stable(toks, prop),
+        29 => op_streamj(toks, prop),
+        _ => crate::ops3::run_case3(prop, op, toks),
+    }
+}
+
+#[allow(dead_code)]
+fn _unused(_: DltFilterConfig) {}
